@@ -176,7 +176,7 @@ def make_cache(oid, which, n_calls=2, tiers=("quick", "thorough"), same_config=F
 
 # ------------------------------------------------------------------ query data flow
 def make_query(oid, which, system, metric, batched, in_radians, op, tiers=("quick", "thorough")):
-    nq = 2 if batched else 1
+    nq = {False: 1, True: 2}.get(batched, batched)      # batched may also be a number of query points (3: a 3x3 Cartesian batch)
 
     def setup(ctx):
         for k, v in (("which", which), ("system", system), ("metric", metric), ("batched", batched), ("in_radians", in_radians), ("op", op)):
@@ -364,4 +364,6 @@ def obligations(tier):
                 tag = f"{which}.{system[:3]}.{'batch' if batched else 'single'}.{'rad' if rad else 'deg'}"
                 obs.append(make_query(f"C11.query.{tag}", which, system, metric, batched, rad, "query"))
                 obs.append(make_query(f"C11.radius.{tag}", which, system, metric, batched, rad, "radius"))
+    obs += [make_query("C11.query.kd.car.batch3.deg", "kd", "cartesian", "minkowski", 3, False, "query"),
+            make_query("C11.radius.ball.car.batch3.deg", "ball", "cartesian", "minkowski", 3, False, "radius")]
     return [o for o in obs if tier in o.tiers]
